@@ -153,6 +153,15 @@ func checkC11(c *Ctx, r *Report) {
 	r.Explain = "Must-check on the two command send closures: every CFG path on which the decoded completion code is classified (and hence may be returned to the caller) has taken the equal arm of a comparison between the decoded message layer's network function and a value derived from the request's Operation(), and likewise for the command number; the request side must not be read from the message layer after the decoder has overwritten it. Decides presence and placement of the comparisons on all paths, not the arithmetic relating request and response NetFn."
 	r.NotDecided = []string{"matching among replies to the same command (the library always uses message sequence number 1)", "that the response NetFn is computed as request NetFn + 1 (only provenance of the compared value is checked)"}
 	r.Trusted = []string{"go/types, go/ssa (x/tools v0.29.0)", "gopacket LayersDecoder fills the registered message layer from the reply"}
+	checkReplyMatchesRequest(c, r)
+
+	// one write followed by one read per attempt
+	checkOneWriteOneRead(c, r)
+}
+
+// checkReplyMatchesRequest: rule shared by C11 (a reply to another command is not taken for
+// this command's) and C10 (retrying ends only with a valid response to the caller's command).
+func checkReplyMatchesRequest(c *Ctx, r *Report) {
 	n := 0
 	for _, s := range c.SendClosures() {
 		if !s.Command {
@@ -220,8 +229,9 @@ func checkC11(c *Ctx, r *Report) {
 		r.Rule("reply-matches-request", "", 4)
 		r.Lost("two command send closures")
 	}
+}
 
-	// one write followed by one read per attempt
+func checkOneWriteOneRead(c *Ctx, r *Report) {
 	r.Rule("one-write-one-read", "transport.Send performs exactly one socket write followed by exactly one socket read on its success path", 1)
 	if send := c.transportSend(); send == nil {
 		r.Lost("transport.Send")
